@@ -49,6 +49,40 @@ pub struct Allocator {
 
 const GC_HEAP_GROW_FACTOR: usize = 2;
 
+#[cfg(feature = "verif")]
+impl Allocator {
+  /// Verification hook: a read-only snapshot of the allocator's bookkeeping
+  pub fn verif_stats(&self) -> crate::verif::AllocatorStats {
+    let mut owned_bytes = 0;
+    for obj in &self.nursery_obj_heap {
+      owned_bytes += obj.size();
+    }
+    for obj in &self.obj_heap {
+      owned_bytes += obj.size();
+    }
+    for item in &self.heap {
+      owned_bytes += item.size();
+    }
+
+    crate::verif::AllocatorStats {
+      bytes_allocated: self.bytes_allocated,
+      next_gc: self.next_gc,
+      gc_count: self.gc_count,
+      heap_len: self.heap.len(),
+      nursery_obj_len: self.nursery_obj_heap.len(),
+      obj_len: self.obj_heap.len(),
+      intern_len: self.intern_cache.len(),
+      temp_roots: self.temp_roots.len(),
+      owned_bytes,
+    }
+  }
+
+  /// Verification hook: is every key of the intern table the content of its own value
+  pub fn verif_intern_consistent(&self) -> bool {
+    self.intern_cache.iter().all(|(k, v)| *k == &**v)
+  }
+}
+
 impl Allocator {
   /// Create a new manged heap for laythe for objects.
   ///
